@@ -45,7 +45,7 @@ m = dict(
     checks=checks,
     notes="All checks are solver-based (bounded model checking of the real compiled code). Exit 2 = inconclusive (timeout/OOM/vacuous/"
           "non-reproducing/internal error), never reported as success. Genuine defects: fix: commits b3006e2 (C08) and 97565eb (C07/C01/C02) in "
-          "/repo; known findings KF-C05-1 and KF-C20-1 in known_findings.json (K-tier twin harnesses print KNOWN-FINDING). Seeded changes and "
+          "/repo; known findings KF-C05-1, KF-C20-1 and KF-C07-1 in known_findings.json (K-tier twin harnesses print KNOWN-FINDING). Seeded changes and "
           "which checks catch them: seeded/*/meta.json and DESIGN.md section 6. See DESIGN.md.",
     not_applicable=na,
 )
